@@ -9,8 +9,11 @@
 //! nested tags, tags of trees and blobs, a remote-tracking branch with upstream configuration, reflogs for HEAD and
 //! branches with several entries (incl. `checkout: moving from A to B` lines), an index with stage 0..3 entries.
 //! Specs are composed from a grammar over the world's names, see `gen_spec`.
-//! Oracle: `git rev-parse <spec> --` (one process per spec): output lines / failure; gitoxide:
-//! `Repository::rev_parse(spec)` mapped to the same lines.
+//! Oracle: `git rev-parse <spec> --` (one process per range-like / reflog / sibling spec); plain single-object specs
+//! are resolved through one `git cat-file --batch-check` process per world (the same `get_oid_with_context()`), with
+//! two of them per world cross-checked against `rev-parse`. gitoxide: `Repository::rev_parse(spec)` mapped to the
+//! lines git prints. Sub-check `world` counts specs in known deviation classes and goes on; sub-check `pinned`
+//! replays the pinned known findings and reports the class selected by the byte that follows the case on the tape.
 use bstr::ByteSlice;
 use std::collections::{BTreeMap, HashSet};
 use std::fmt::Write as _;
@@ -684,6 +687,55 @@ fn gen_spec(t: &mut Tape, b: &Built) -> (String, Features) {
     (s, f)
 }
 
+/// Systematic specs for a world: peel / parent / ancestor operators on every name, reflog entries of every logged
+/// ref, and the range forms on the first two branches.
+fn battery(b: &Built) -> Vec<(String, Features)> {
+    let mut out = Vec::new();
+    let mut names: Vec<&String> = b.names.iter().filter(|n| n.as_str() != "@").collect();
+    names.dedup();
+    for n in names {
+        for (suffix, feature) in [
+            ("^{}", "peel"),
+            ("^0", "caret"),
+            ("~1", "tilde"),
+            ("^2", "caret"),
+            ("^3", "caret"),
+            ("^{tree}", "peel"),
+            ("^{tag}", "peel"),
+        ] {
+            let mut f = Features { single: true, nav_ops: 1, ..Default::default() };
+            f.add("battery");
+            f.add(feature);
+            out.push((format!("{n}{suffix}"), f));
+        }
+    }
+    for r in &b.reflog_names {
+        for n in [0, 1] {
+            let mut f = Features::default();
+            f.add("battery");
+            f.add("reflog");
+            out.push((format!("{r}@{{{n}}}"), f));
+        }
+    }
+    let branches: Vec<&String> = b.names.iter().filter(|n| n.starts_with("refs/heads/")).take(2).collect();
+    if let [a, rest @ ..] = branches.as_slice() {
+        let other = rest.first().copied().unwrap_or(a);
+        for (spec, feature) in [
+            (format!("{a}..{other}"), "range"),
+            (format!("{a}...{other}"), "symmetric"),
+            (format!("{a}^@"), "parents-only"),
+            (format!("{a}^!"), "exclude-parents"),
+            (format!("{a}^-"), "minus-parent"),
+        ] {
+            let mut f = Features::default();
+            f.add("battery");
+            f.add(feature);
+            out.push((spec, f));
+        }
+    }
+    out
+}
+
 /// what either side answers: the printed lines, or failure
 #[derive(Debug, PartialEq, Eq, Clone)]
 enum Outcome {
@@ -800,9 +852,12 @@ fn git_fallback_quirk(spec: &str, git: &Outcome, gix: &Outcome) -> bool {
         if range_like && l.len() == 3 && !l[2].starts_with('^') {
             return true;
         }
-        if range_like && has_describe_token && l.len() == 1 {
+        // `A..B` / `A...B` always print at least two lines: a single line means the whole string was resolved as one
+        // revision by one of the fallbacks
+        if range_like && l.len() == 1 {
             return true;
         }
+        let _ = has_describe_token;
     }
     if !matches!(git, Outcome::Lines(_)) || !matches!(gix, Outcome::Fail(_)) {
         return false;
@@ -900,9 +955,27 @@ fn signature(git: &Outcome, gix: &Outcome, f: &Features, tag_ids: &BTreeMap<Stri
                 && m.split(|c: char| !c.is_ascii_hexdigit())
                     .filter(|w| w.len() >= 7)
                     .any(|w| tag_ids.values().any(|id| id.starts_with(w)));
-            let about_a_tag = about_a_tag || m.contains("Expected object of kind commit but got tag");
+            let about_a_tag = about_a_tag
+                || m.contains("Expected object of kind commit but got tag")
+                // an ambiguous prefix whose only commit-ish candidate is an annotated tag: navigating from the tag
+                // fails, so the candidate is dropped and the prefix stays ambiguous
+                || (m.contains("is ambiguous")
+                    && m.contains(" tag ")
+                    && f.list.iter().any(|l| matches!(*l, "tilde" | "caret" | "nav-regex")));
             if about_a_tag && !matches!(feature, "colon-form-before-range-syntax" | "tilde-zero" | "index-stage-3" | "describe-with-suffix") {
                 return "navigation-from-annotated-tag-not-peeled".to_string();
+            }
+            if m.contains("while trying to peel to commit")
+                && f.list.iter().any(|l| matches!(*l, "range" | "exclude"))
+                && !about_a_tag
+            {
+                return "range-side-must-be-committish".to_string();
+            }
+            if m.contains("partially named \"@\"") {
+                return "at-sign-as-name-before-at-brace".to_string();
+            }
+            if m.contains("Reflog entries require a ref name") {
+                return "reflog-of-hex-looking-ref-name".to_string();
             }
             if m.contains("does not have a reference log") {
                 return "name-at-n-resolves-ref-before-looking-for-its-log".to_string();
@@ -940,6 +1013,8 @@ fn run_world(t: &mut Tape, c: &mut Case, strict: bool, known: &HashSet<String>) 
             specs.push(gen_spec(t, &built));
         }
         c.key(&(&wspec, specs.iter().map(|(s, _)| s.clone()).collect::<Vec<_>>()));
+        // a fixed battery derived from the world alone (no tape bytes): the basic operators on every name
+        specs.extend(battery(&built));
         let mut first_known: Option<(String, String)> = None;
         let mut all_known: Vec<(String, String)> = Vec::new();
         let hunt = std::env::var("VERIF_PIN_HUNT").ok();
@@ -1065,8 +1140,8 @@ fn run_world(t: &mut Tape, c: &mut Case, strict: bool, known: &HashSet<String>) 
 
 pub fn main() {
     let mut ck = Check::new("C48", "exploration");
-    ck.rule("One case = a generated repository (2..12 commits incl. merges/several roots, distinct commit times in random order, multi-line messages, nested trees, 0..900 filler blobs for colliding hex prefixes, branches incl. hex-looking and tag-shadowing names, lightweight/annotated/nested tags, tree and blob tags, upstream configuration, hand-written reflogs incl. checkout lines and gaps, index with conflict stages, attached or detached HEAD) plus 80 specs from the grammar: names in all short forms, full/abbreviated/ambiguous/too-short hex, describe names, @, name@{n}, @{-n}, @{u}/@{upstream}/@{push}, :/regex, :path, :n:path, then up to 4 of ~n ^n ^0 ^{type} ^{} ^{/regex} :path; ranges A..B A...B ..B A.. ^A A^@ A^! A^-n. Non-trivial: the case contains specs with >= 2 navigation/peel operators or range/reflog forms (counted per label). Distinct by hash of (world, specs).");
-    ck.assume(&format!("oracle: `{} rev-parse <spec> --` (exit status and printed ids); for A...B only the two tips are compared (gitoxide does not compute the merge bases in rev_parse)", Git::version()));
+    ck.rule("One case = a generated repository (2..12 commits incl. merges/several roots, distinct commit times in random order, multi-line messages, nested trees, 0..900 filler blobs for colliding hex prefixes, branches incl. hex-looking and tag-shadowing names, lightweight/annotated/nested tags, tree and blob tags, upstream configuration, hand-written (gap-free) reflogs incl. checkout lines, index with conflict stages, attached or detached HEAD) plus 80 specs from the grammar and a fixed battery (every name x ^{} ^0 ~1 ^2 ^3 ^{tree} ^{tag}, every logged ref x @{0} @{1}, the five range forms on two branches): names in all short forms, full/abbreviated/ambiguous/too-short hex, describe names, @, name@{n}, @{-n}, @{u}/@{upstream}/@{push}, :/regex, :path, :n:path, then up to 4 of ~n ^n ^0 ^{type} ^{} ^{/regex} :path; ranges A..B A...B ..B A.. ^A A^@ A^! A^-n. Non-trivial: the case contains specs with >= 2 navigation/peel operators or range/reflog forms (counted per label). Distinct by hash of (world, specs).");
+    ck.assume(&format!("oracle: `{} rev-parse <spec> --` (exit status and printed ids), single-object specs batched through `cat-file --batch-check` and sampled against rev-parse; for A...B only the two tips are compared (gitoxide does not compute the merge bases in rev_parse); specs where git only resolves through its whole-string fallbacks (`@{{<garbage>}}` read as a reflog date, `<anything>-g<hex>` read as describe output, stray output of a failed A...B) are dropped and counted", Git::version()));
     ck.assume("gitoxide is opened with isolated options; forms gitoxide reports as planned/unimplemented (reflog lookups by date) are not generated; commit times are distinct so that the youngest-first regex search order is well-defined; regexes are restricted to syntax with the same meaning in POSIX BRE (git) and the regex crate, except where labelled regex-meta/regex-anchor");
 
     let known = load_known();
